@@ -111,6 +111,11 @@ func SimC02(c *CheckCtx, i int, r *Rng) error {
 		args.Globals = nil
 	}
 	sched := drawSched(r)
+	if i%2 == 0 {
+		// a slow machine: every callback and file-system call takes seconds of simulated time (whatever
+		// gengo does "every so often" or "after a while" happens in the middle of the victim run)
+		sched.Clock = "slow:2500"
+	}
 	mkRun := func(fresh bool) *RunOp { return &RunOp{Args: args, Gens: gens, Sched: sched, Fresh: fresh} }
 
 	// the world already holds a complete set of outputs and a gengo.sum (there is something to damage),
